@@ -320,5 +320,41 @@
   CI_GHOST(g_k) CI_GHOST(g_k2) CI_GHOST(g_j) QI_CINC \
   LD(max_count - i)
 
+/* ---- C04: the three printers.  Cursor triple (tmp == buf + (buflen - size), 0 <= size, buflen>0 ==> size>=1),
+ * ghost accounting of the snprintf contract stub (stubs/snprintf.h) and the arena frame fact
+ * (include/traversal.arena.h).  Only defined in the printer driver (VERIF_PRINTERS). */
+#ifdef VERIF_PRINTERS
+#define PR_CURSOR \
+  LI(size >= 0 && (size_t)size <= buflen && (buflen == 0 || size >= 1)) \
+  LI(buf == (char *)0 ? tmp == (char *)0 : (__CPROVER_same_object(tmp, buf) && tmp == buf + (buflen - (size_t)size))) \
+  LI(!verif_snprintf_neg && ret >= 0 && (long)ret == verif_snprintf_sum) \
+  LI(buflen == 0 || buf[0] == 0 || (verif_last_nul < buflen && buf[verif_last_nul] == 0)) \
+  LI(VERIF_FRAME_OK)
+#define PR_ASSIGNS res, ret, tmp, size, verif_snprintf_sum, verif_snprintf_neg, verif_last_nul, verif_snprintf_calls, verif_arena
+#define PR_SKIP(lo) LA(i) LI((lo) - 1 <= i && i < (int)set->ulongs_count) LD(i + 1)
+#define HWLOC_VERIF_LOOP_hwloc_bitmap_snprintf_1 PR_SKIP(0)
+#define HWLOC_VERIF_LOOP_hwloc_bitmap_snprintf_2 PR_SKIP(0)
+#define HWLOC_VERIF_LOOP_hwloc_bitmap_snprintf_3 \
+  LA(i, accum, accumed, needcomma, merge_with_infinite_prefix, PR_ASSIGNS) \
+  LI(-1 <= i && i < (int)set->ulongs_count && (accumed == 0 || accumed == HWLOC_BITMAP_SUBSTRING_SIZE)) \
+  LI(ret <= (2 * ((int)set->ulongs_count - 1 - i) - (accumed ? 1 : 0) + 1) * PIECE_MAX)   /* one piece per iteration so far, plus the prefix */ \
+  PR_CURSOR \
+  LD(2 * (i + 1) + (accumed ? 1 : 0))
+#define HWLOC_VERIF_LOOP_hwloc_bitmap_taskset_snprintf_1 PR_SKIP(0)
+#define HWLOC_VERIF_LOOP_hwloc_bitmap_taskset_snprintf_2 PR_SKIP(1)
+#define HWLOC_VERIF_LOOP_hwloc_bitmap_taskset_snprintf_3 \
+  LA(i, started, merge_with_infinite_prefix, PR_ASSIGNS) \
+  LI(-1 <= i && i < (int)set->ulongs_count) \
+  LI(ret <= ((int)set->ulongs_count - i + 1) * PIECE_MAX) \
+  PR_CURSOR \
+  LD(i + 1)
+#define HWLOC_VERIF_LOOP_hwloc_bitmap_list_snprintf_1 \
+  LA(prev, needcomma, PR_ASSIGNS) \
+  LI(-1 <= prev && (long)prev < 64L * (long)set->ulongs_count) \
+  LI(ret <= (prev + 2) * PIECE_MAX) \
+  PR_CURSOR \
+  LD(64L * (long)set->ulongs_count - (long)prev)
+#endif
+
 #include "bitmap.loops.todo.h"
 #endif
